@@ -37,14 +37,20 @@ class StateModel:
         for c in [self.state_cls] + self.state_cls.all_subclasses():
             init = c.methods.get("__init__")
             if init:
+                # the constructor and the private helpers it calls on self (one level: `self._reset()`)
+                fs = [init]
                 for n in ctx.own_nodes(init):
-                    if isinstance(n, ast.Attribute) and isinstance(n.ctx, ast.Store) and isinstance(n.value, ast.Name) and n.value.id == init.self_name:
-                        init_attrs.add(n.attr)
+                    if isinstance(n, ast.Call) and isinstance(n.func, ast.Attribute) and isinstance(n.func.value, ast.Name) and n.func.value.id == init.self_name:
+                        h = c.lookup(n.func.attr) if hasattr(c, "lookup") else c.methods.get(n.func.attr)
+                        if h is not None and h not in fs and getattr(h, "self_name", None):
+                            fs.append(h)
+                for fn in fs:
+                    for n in ctx.own_nodes(fn):
+                        if isinstance(n, ast.Attribute) and isinstance(n.ctx, ast.Store) and isinstance(n.value, ast.Name) and n.value.id == fn.self_name:
+                            init_attrs.add(n.attr)
         missing = TRACKED_CONTAINERS - init_attrs
         if missing:
             raise AnalysisError("tracked state attribute(s) %s no longer assigned in SyncState/SmartSyncState.__init__" % sorted(missing))
-        if "lock" not in init_attrs:
-            raise AnalysisError("SyncState.lock is not assigned in SyncState.__init__")
         self.state_inits = {c.methods["__init__"].qname for c in [self.state_cls] + self.state_cls.all_subclasses() if "__init__" in c.methods}
 
     # ---------------------------------------------------------------- mutation sites
